@@ -66,16 +66,16 @@ func (t *Term) Key() string {
 
 func (t *Term) String() string { return t.Key() }
 
-func K(n int64) *Term          { return &Term{Op: "c", C: big.NewRat(n, 1)} }
-func KR(r *big.Rat) *Term      { return &Term{Op: "c", C: new(big.Rat).Set(r)} }
-func KF(f float64) *Term       { r := new(big.Rat); r.SetFloat64(f); return &Term{Op: "c", C: r} }
-func A(name string) *Term      { return &Term{Op: "a", S: name} }
-func (t *Term) IsConst() bool  { return t.Op == "c" }
-func (t *Term) IsZero() bool   { return t.Op == "c" && t.C.Sign() == 0 }
-func (t *Term) IsOne() bool    { return t.Op == "c" && t.C.Cmp(big.NewRat(1, 1)) == 0 }
-func sortTerms(ts []*Term)     { sort.Slice(ts, func(i, j int) bool { return ts[i].Key() < ts[j].Key() }) }
-func Neg(t *Term) *Term        { return Mul(K(-1), t) }
-func Sub(a, b *Term) *Term     { return Add(a, Neg(b)) }
+func K(n int64) *Term         { return &Term{Op: "c", C: big.NewRat(n, 1)} }
+func KR(r *big.Rat) *Term     { return &Term{Op: "c", C: new(big.Rat).Set(r)} }
+func KF(f float64) *Term      { r := new(big.Rat); r.SetFloat64(f); return &Term{Op: "c", C: r} }
+func A(name string) *Term     { return &Term{Op: "a", S: name} }
+func (t *Term) IsConst() bool { return t.Op == "c" }
+func (t *Term) IsZero() bool  { return t.Op == "c" && t.C.Sign() == 0 }
+func (t *Term) IsOne() bool   { return t.Op == "c" && t.C.Cmp(big.NewRat(1, 1)) == 0 }
+func sortTerms(ts []*Term)    { sort.Slice(ts, func(i, j int) bool { return ts[i].Key() < ts[j].Key() }) }
+func Neg(t *Term) *Term       { return Mul(K(-1), t) }
+func Sub(a, b *Term) *Term    { return Add(a, Neg(b)) }
 func Call(fn string, args ...*Term) *Term {
 	if fn == "math.Min" || fn == "math.Max" {
 		// commutative: canonical argument order
